@@ -237,13 +237,18 @@ PROPERTIES['C15'] = {
          bounds='n <= 1100 (crosses the 1024-element check once), cancel oracle at every check site', targets=['parallel.h for_each(policy, first, last, ctx, f)', 'execution_impl.h IsCancelled']),
     dict(name='foreach_noctx', harness='c15_cancel.cpp', entry='h_foreach_noctx', backends=['minisat'], timeout=300, unwind={'default': 9},
          claim='for_each with ctx == nullptr always completes', bounds='n <= 8', targets=['parallel.h for_each']),
-    dict(name='progress_range', harness='c15_cancel.cpp', entry='h_progress', exceptions=True, backends=['minisat', 'kissat'], timeout=600, unwind={'default': 3}, tiers=['experimental'],
+    dict(name='progress_range', harness='c15_cancel.cpp', entry='h_progress', fnptr_defs='_Sp_counted', models=['stdlib.h'], recursion={'default': 2}, backends=['minisat', 'kissat'], timeout=600, unwind={'default': 3}, tiers=['quick', 'thorough'],
          claim='Progress() in [0,1] whenever 0 <= donePhases <= totalPhases; 1 when total == 0 or done == total', bounds='all int counter values', targets=['execution_impl.cpp ExecutionContext::Progress']),
     dict(name='boolean_cancel_any_point', harness='c15_boolean.cpp', entry='h_boolean_cancel', cancel_oracle=True, models=['rbtree.h', 'stdlib.h', 'hash_pmr.h'],
          redirect={'_ZN8manifold14ManifoldParamsEv': 'vf_stub_ManifoldParams'}, unwind={'default': 70}, recursion={'default': 12}, object_bits=13,
          backends=['minisat'], timeout=14000, mem_gb=40, tiers=['experimental'],
          claim='Boolean3::Result(Add) of two concrete disjoint tetrahedra under EVERY cancellation schedule (sticky oracle at every atomic load of the cancel flag, i.e. Cancel() taking effect at the k-th check for every k): the result is either Cancelled and empty, or - only if cancellation never became visible - the complete 8-triangle union with donePhases == kPhasesPerBoolean',
          bounds='one concrete operand pair (two tetrahedra, disjoint boxes); symbolic: the cancellation point only', targets=['boolean_result.cpp Boolean3::Result (all 11 phase() sites, PhaseBalance)', 'sort.cpp SortGeometry(ctx)', 'parallel.h for_each(ctx)', 'face_op.cpp Face2Tri', 'edge_op.cpp SimplifyTopology']),
+    dict(name='progress_vs_reset', harness='c15_cancel.cpp', entry='h_progress_vs_reset', cdefs=['VF_HAVE_ENV'], extra_roots=['vf_env'], fnptr_defs='_Sp_counted', models=['stdlib.h'],
+         backends=['minisat', 'kissat'], timeout=600, unwind={'default': 4}, recursion={'default': 2},
+         claim='ExecutionContext::Progress() polled while another thread resets the same context for reuse (ResetForStaticFactory: donePhases = 0, then totalPhases = new, interleaved anywhere between Progress()\'s atomic loads): the value stays in [0, 1]',
+         bounds='all int counter values with 0 <= done <= total, any new total >= 0; the writer is a model whose store order is the guarantee asserted on the real ResetForStaticFactory by reset_order; progress of the NEXT evaluation between the two loads is outside (a context is documented as one evaluation at a time)',
+         targets=['execution_impl.cpp ExecutionContext::Progress']),
     dict(name='reset_order', harness='c15_cancel.cpp', entry='h_reset_order', cdefs=['VF_HAVE_ENV'], extra_roots=['vf_env'], backends=['minisat', 'kissat'], timeout=600, unwind={'default': 3},
          claim='ResetForStaticFactory: an observer computing Progress() before/after each of the four atomic stores never sees a value > 1', bounds='all int counter values, observer at every atomic access', targets=['execution_impl.cpp ResetForStaticFactory']),
   ],
@@ -401,13 +406,15 @@ PROPERTIES['C18'] = {
          claim='Impl::IsIndexInBounds(triVerts) <=> every index in [0, NumVert); NumTri/NumEdge/NumVert/NumPropVert/IsEmpty follow the array sizes', bounds='2 triangles, all int indices', targets=['properties.cpp Impl::IsIndexInBounds', 'impl.h counting accessors']),
   ],
 }
+# the progress-counter protocol is a C06 matter as much as a C15 one (polled from another thread at any time)
+PROPERTIES['C06']['obligations'] += [dict(o) for o in PROPERTIES['C15']['obligations'] if o['name'] in ('progress_vs_reset', 'reset_order')]
 PROPERTIES['C19']['obligations'] += [
-    dict(name='compose_tolerance_floor', harness='c19_compose.cpp', entry='h_compose', real='f16', models=['stdlib.h', 'rbtree.h', 'pthread.h'],
-         redirect={'_ZN8manifold8Manifold4Impl12SortGeometry.*': 'vf_stub_SortGeometry'},
+    dict(name='compose_tolerance_floor', harness='c19_compose.cpp', entry='h_compose', models=['stdlib.h', 'rbtree.h', 'pthread.h'],
+         redirect={'_ZN8manifold3VecIiLb1EE13resize_nofillEm': 'vf_stub_resize_nofill'},
          unwind={'default': 3}, recursion={'default': 2}, backends=['minisat', 'kissat'], timeout=1500, mem_gb=30, object_bits=12,
          tiers=['quick', 'thorough'],
-         claim='CsgLeafNode::Compose (disjoint-union fast path) on two children with arbitrary bounding boxes, epsilon <= tolerance, each with or without a pending arbitrary affine transform: the combined Impl handed on satisfies tolerance >= epsilon (the invariant SetTolerance, Simplify and every later SetEpsilon floor rely on)',
-         bounds='2 children with EMPTY meshes (only the epsilon/tolerance/bounding-box bookkeeping of the real function runs; all copy loops have zero trips), all values finite |x| <= 64, IEEE binary16 arithmetic (the property is an order relation between max()/scaled values and does not depend on precision); std::mutex by a sequential lock model',
+         claim='CsgLeafNode::Compose (disjoint-union fast path) on two children with arbitrary bounding boxes and kPrecision*scale <= epsilon <= tolerance, the first with a pending axis-aligned scale (any sign and magnitude) + translation, the second without: the combined Impl handed on satisfies tolerance >= epsilon (the invariant SetTolerance, Simplify and every later SetEpsilon floor rely on)',
+         bounds='2 children with EMPTY meshes; the path ends at the first array sizing of the combined Impl (redirected Vec<int>::resize_nofill), i.e. after the complete epsilon/tolerance/bounding-box bookkeeping and before the copy machinery, which never writes those fields again, all values finite |x| <= 64, full IEEE double arithmetic; std::mutex by a sequential lock model',
          targets=['csg_tree.cpp CsgLeafNode::Compose, CsgLeafNode::GetBoundingBox', 'common.h Box::Transform, Box::Scale, Box::Union'])
 ]
 PROPERTIES['C19']['obligations'] += [
